@@ -198,6 +198,27 @@ func fullAnswersOf(pj *Projector, an *analysis.Spec, sw *spec.Swagger) *fullAnsw
 		ids = append(ids, id)
 	}
 	add("opids", mapStrings(ids, func(s string) string { return hash8(s) }))
+	// look-ups by id answer from the same index as the listings
+	byName := []string{}
+	count := map[string]int{}
+	for _, byPath := range an.Operations() {
+		for _, op := range byPath {
+			if op != nil {
+				count[op.ID]++
+			}
+		}
+	}
+	for _, id := range ids {
+		if count[id] != 1 {
+			continue // an id shared by several operations: which one a look-up finds is not determined
+		}
+		if m, p, op, ok := an.OperationForName(id); ok && op != nil {
+			byName = append(byName, hash8(id)+"@"+m+" "+pj.Names.Abs(p))
+		} else {
+			byName = append(byName, hash8(id)+"@-")
+		}
+	}
+	add("byname", byName)
 	paths := []string{}
 	for p := range an.AllPaths() {
 		paths = append(paths, pj.Names.Abs(p))
@@ -254,12 +275,19 @@ func defLabels(n *Node) []string {
 	return out
 }
 
+// warmAnalyzer, when set, is called with the analyzer before it is handed to Flatten (every getter is asked once, so that anything
+// the analyzer memoizes on first use exists before the document changes: C10)
+var warmAnalyzer func(an *analysis.Spec, sw *spec.Swagger)
+
 func flattenOnce(root string, o flattenOpts) (*spec.Swagger, *analysis.Spec, error, error) {
 	sw, err := loadSwagger(root)
 	if err != nil {
 		return nil, nil, nil, err
 	}
 	an := analysis.New(sw)
+	if warmAnalyzer != nil {
+		warmAnalyzer(an, sw)
+	}
 	ferr := analysis.Flatten(analysis.FlattenOpts{Spec: an, BasePath: root, Minimal: o.Minimal, Expand: o.Expand,
 		RemoveUnused: o.RemoveUnused, KeepNames: o.KeepNames, ContinueOnError: o.ContinueOnError})
 	return sw, an, ferr, nil
@@ -342,7 +370,11 @@ func opFlatten(req *Req) (any, map[string]string, error) {
 		}
 	}
 	resetLoader(args.FailAt)
+	if args.Getters {
+		warmAnalyzer = func(an *analysis.Spec, sw *spec.Swagger) { fullAnswersOf(pj, an, sw) }
+	}
 	sw, an, ferr, err := flattenOnce(req.Files["root"], o)
+	warmAnalyzer = nil
 	analysis.VerifHook = nil
 	if err != nil {
 		return nil, nil, fmt.Errorf("load root: %w", err)
